@@ -359,7 +359,13 @@ func (e *Entry) Verify(identity identityprovider.Interface, io iface.IO) error {
 	var verifiedEntry iface.IPFSLogEntry = e
 	if io, ok := io.(iface.IOPreSign); ok {
 		var err error
-		verifiedEntry, err = io.PreSign(e)
+
+		// CreateEntryWithIO pre-signs the entry before its key is attached,
+		// the signed content has to be rebuilt from the same state
+		unkeyed := *e
+		unkeyed.Key = nil
+
+		verifiedEntry, err = io.PreSign(&unkeyed)
 
 		if err != nil {
 			return err
